@@ -1,2 +1,74 @@
-"""C08 -- not claimed."""
-NOT_APPLICABLE = "needs std::thread start/join and mutex/condvar workers under real interleavings; the sequentialised scheduler has two logical threads and no thread-creation model, and list-based code under CBMC's thread encoding ran out of memory (strand.cpp: 12 GB / 17 min)"
+"""C08 -- FairThreadPool: accepted jobs all run, rejected ones drop, Wait means done.  Real pool code over a modelled pthread/std::thread
+boundary, sequentialised with three logical threads (worker, submitter, stopper)."""
+import core
+
+LIB = ['src/runtime/fair_thread_pool.cpp', 'src/util/intrusive_list.cpp', 'src/exe/inline.cpp']
+STOPS = [('c08_stop', 0), ('c08_softstop', 1), ('c08_hardstop', 2)]
+
+
+def entry(name, units, trig, kind):
+    """units: [fn,...] pending units in order; trig: [(ctx, k), ...]"""
+    s = 'void %s(void) {\n  vp_spurious_cfg = 0;\n  vp_init();\n  c08_prologue();\n  vp2_nunits = %d;\n' % (name, len(units))
+    for u, (fn, (ctx, k)) in enumerate(zip(units, trig)):
+        s += '  vp2_sel[%d] = %d; vp2_u_ctx[%d] = %d; vp2_u_k[%d] = %d;\n' % (u, ALL_UNITS.index(fn) + 1, u, ctx, u, k)
+    s += '  vp2_enabled = 1;\n  c08_worker();\n  vp2_run_rest();\n  vp2_enabled = 0;\n  c08_epilogue(%d);\n}\n' % kind
+    return s
+
+
+ALL_UNITS = ['c08_submitter', 'c08_stop', 'c08_softstop', 'c08_hardstop']
+
+
+def plan(tier, seed, ctx):
+    kw = 10 if tier == 'quick' else 14      # schedule points of the worker at which a pending unit may be triggered
+    ks = 6 if tier == 'quick' else 8        # schedule points of the submitter at which the stopper may be triggered
+    modules = {'c08': [('harness/C08_api.cpp', 'prod17')] + [(l, 'prod17') for l in LIB]}
+    head = core.decls(ALL_UNITS + ['c08_prologue', 'c08_worker']) + 'void c08_epilogue(uint32_t);\nint vp2_sel[4];\nvoid vp_unit_run(int u) {\n' + \
+        ''.join('  if (vp2_sel[u] == %d) { %s(); return; }\n' % (i + 1, f) for i, f in enumerate(ALL_UNITS)) + '}\n'
+    queries = []
+    first = [True]
+
+    def add(name, text, what, fam):
+        queries.append({'name': name, 'module': 'c08', 'main': (head if first[0] else '') + text, 'unwind': 8, 'timeout': 300, 'sample': what, 'witness': 'any', 'family': fam})
+        first[0] = False
+    NEVER = 99
+    for (sf, kind) in STOPS:
+        tag = sf[4:]
+        # submitter at worker point k0 (or when the worker blocks: k0 = NEVER), stopper at worker point k1 >= k0 / when blocked
+        for k0 in list(range(kw)) + [NEVER]:
+            for k1 in [k for k in range(kw) if k >= k0 or k0 == NEVER] + [NEVER]:
+                nm = 'c08_%s_S%s_T%s' % (tag, 'b' if k0 == NEVER else k0, 'b' if k1 == NEVER else k1)
+                add(nm, entry(nm, ['c08_submitter', sf], [(0, k0), (0, k1)], kind),
+                    '%s: submitter at worker schedule point %s, stopper at worker schedule point %s (b = when the worker blocks)' % (tag, k0, k1), 'c08_' + tag)
+            # stopper inside the submitter
+            for k1 in range(ks):
+                nm = 'c08_%s_S%s_Tin%d' % (tag, 'b' if k0 == NEVER else k0, k1)
+                add(nm, entry(nm, ['c08_submitter', sf], [(0, k0), (1, k1)], kind),
+                    '%s: submitter at worker schedule point %s, stopper at schedule point %d of the submitter' % (tag, k0, k1), 'c08_' + tag)
+            # stopper first, submitter afterwards (everything must be refused)
+            nm = 'c08_%s_T%s_Safter' % (tag, 'b' if k0 == NEVER else k0)
+            add(nm, entry(nm, [sf, 'c08_submitter'], [(0, k0), (0, NEVER)], kind),
+                '%s: stopper at worker schedule point %s, submitter only when the worker blocks / at the end' % (tag, k0), 'c08_' + tag)
+    meta = {
+        'rule': 'Per stop kind one query per placement of the submitter (2 jobs) and the stopper relative to the single worker: each pending unit runs to completion at an enumerated schedule '
+                'point of the worker (or of the submitter), or when the running thread blocks. Schedule points are every mutex, condition-variable and thread operation and the job bodies. All pool state '
+                'is protected by the pool mutex, so interleaving at these points is what a data-race-free execution can show.',
+        'bounds': {'workers': 1, 'jobs': 2, 'logical_threads': 3, 'worker_points': kw, 'submitter_points': ks, 'schedules': 'well-nested (a pending unit runs to completion where it is triggered)'},
+        'stubs': ['pthread_mutex_lock/unlock, std::condition_variable::{wait,notify_one,notify_all}, std::thread::{_M_start_thread,join,hardware_concurrency} modelled in rt/vp_sync.c '
+                  '(a blocked thread lets the pending units run; a block with nobody left = deadlock failure)', 'leaf jobs recording order/overlap/counts'],
+        'assumptions': ['n > 1 workers, jobs that resubmit, and schedules in which submitter and stopper mutually interleave more than one window deep are outside the claim',
+                        'std::vector / std::unique_lock / std::thread wrapper code is encoded as instantiated by clang; libstdc++.so and glibc behind them are models'],
+        'functions_filter': r'(FairThreadPool|List|c08_|thread)',
+        'explanation': 'Real code: all of src/runtime/fair_thread_pool.cpp, src/util/intrusive_list.cpp.',
+    }
+    return {'modules': modules, 'queries': queries, 'meta': meta, 'module_opts': {'c08': {'nthreads': 4, 'heap': 1024, 'stack': 3072, 'preempt': True}}}
+
+
+MANIFEST = {
+    'level_text': 'For the real FairThreadPool with one worker, a submitter (2 jobs) and a thread calling Stop / SoftStop / HardStop, the solver decides for every enumerated well-nested placement of the '
+                  'three threads at mutex/condvar/thread operations (and when a thread blocks): every job Called xor Dropped exactly once; without HardStop a job is dropped only by the Submit that is refused '
+                  '(everything accepted runs); after Wait returns nothing runs; jobs start in submission order; SoftStop never drops an accepted job; no worker is left blocked forever (deadlock probe); '
+                  'thread state and vector storage are released.',
+    'level_note': '1 worker, 2 jobs, modelled pthread/std::thread boundary, well-nested schedules. Trusted: clang -O1 IR, ir2c, rt/vp_sync.c models, cbmc.',
+    'technique': 'bounded model checking of the real code over a modelled thread/mutex/condvar boundary with solver-decided schedule cubes',
+    'design_ref': 'DESIGN.md 4 C08',
+}
